@@ -170,34 +170,63 @@ def run(chk):
     rec = [x for x in ast.walk(jf.node) if isinstance(x, ast.Call) and norm_text(x.func) == "jacobi"]
     okrec = len(rec) == 1 and len(rec[0].args) == 2 and isinstance(rec[0].args[0], ast.BinOp) and isinstance(rec[0].args[0].op, ast.Mod) and norm_text(rec[0].args[0].left) == nn \
         and norm_text(rec[0].args[0].right) == norm_text(rec[0].args[1])
-    a1 = norm_text(rec[0].args[1]) if rec else None
+    a1 = rec[0].args[1].id if rec and isinstance(rec[0].args[1], ast.Name) else None
     chk.ob("R15.3", "jacobi: recursion on (n %% a1, a1)", okrec, loc=jq, key="C15|R15.3|recursion", detail="recursive call is %s" % (norm_text(rec[0]) if rec else None))
-    # a1 is the odd part of a % n: loop `while a1 % 2 == 0: a1, e = a1 // 2, e + 1`
+    # a1 is the odd part of a % n: loop `while a1 % 2 == 0: a1, e = a1 // 2, e + 1`  (locals by role)
+    from sa import pat
+    B = {"L_a1": a1} if a1 else None
     loops = [x for x in ast.walk(jf.node) if isinstance(x, ast.While)]
-    okodd = len(loops) == 1 and a1 is not None and norm_text(loops[0].test) == "%s %% 2 == 0" % a1 and len(loops[0].body) == 1 and norm_text(loops[0].body[0]) in ("%s, e = (%s // 2, e + 1)" % (a1, a1), "(%s, e) = (%s // 2, e + 1)" % (a1, a1))
+    Bl = pat.any_of(loops[0], ["while L_a1 % 2 == 0:\n    L_a1, L_e = L_a1 // 2, L_e + 1",
+                               "while L_a1 % 2 == 0:\n    L_a1 = L_a1 // 2\n    L_e = L_e + 1",
+                               "while L_a1 % 2 == 0:\n    L_e = L_e + 1\n    L_a1 = L_a1 // 2",
+                               "while L_a1 % 2 == 0:\n    L_a1 //= 2\n    L_e += 1",
+                               "while L_a1 % 2 == 0:\n    L_e += 1\n    L_a1 //= 2"], B) if len(loops) == 1 and B else None
+    okodd = Bl is not None
+    if okodd:
+        inits = [pat.match("L_a1, L_e = %s, 0" % an, x, Bl) for x in jf.node.body] + [pat.match("L_a1, L_e = (%s, 0)" % an, x, Bl) for x in jf.node.body]
+        sep = [norm_text(x) for x in jf.node.body if isinstance(x, ast.Assign)]
+        okodd &= any(i is not None for i in inits) or (("%s = %s" % (a1, an)) in sep and ("%s = 0" % Bl["L_e"]) in sep)
     red = any(isinstance(s, ast.Assign) and norm_text(s) == "%s = %s %% %s" % (an, an, nn) for s in jf.node.body)
-    chk.ob("R15.3", "jacobi: a reduced mod n first; a1 = odd part of a with e counting the halvings", okodd and red, loc=jq, key="C15|R15.3|oddpart", detail="odd-part loop / initial reduction not as expected")
+    chk.ob("R15.3", "jacobi: a reduced mod n first; a1 = odd part of a with e counting the halvings (from a1 = a, e = 0)", okodd and red, loc=jq, key="C15|R15.3|oddpart", detail="odd-part loop / its initialisation / the initial reduction not as expected")
     # sign tables
     t1 = t2 = None
+    sname = None
     for s in ast.walk(jf.node):
-        if isinstance(s, ast.If) and len(s.body) == 1 and isinstance(s.body[0], ast.Assign) and norm_text(s.body[0]) == "s = 1" and s.orelse and norm_text(s.orelse[0]) == "s = -1":
-            t1 = s.test
-        if isinstance(s, ast.If) and len(s.body) == 1 and norm_text(s.body[0]) == "s = -s" and not s.orelse:
-            t2 = s.test
+        if not isinstance(s, ast.If):
+            continue
+        b1 = pat.match("if X_t:\n    L_s = 1\nelse:\n    L_s = -1", s, Bl or {})
+        if b1 is not None:
+            t1, sname = b1["X_t"], b1["L_s"]
+    for s in ast.walk(jf.node):
+        if isinstance(s, ast.If) and sname:
+            b2 = pat.match("if X_u:\n    L_s = -L_s", s, {"L_s": sname})
+            if b2 is not None:
+                t2 = b2["X_u"]
     ok1 = ok2 = False
-    if t1 is not None:
+    en = Bl["L_e"] if Bl else None
+    if t1 is not None and en:
         ok1 = True
         for e in (0, 1):
             for r8 in (1, 3, 5, 7):
                 want = (e % 2 == 0) or r8 in (1, 7)          # (2/n)^e
-                ok1 &= bool(ev_res(t1, {"e": e, nn: r8})) == want
+                try:
+                    ok1 &= bool(ev_res(t1, {en: e, nn: r8})) == want
+                except (KeyError, ValueError):
+                    ok1 = False
     if t2 is not None and a1:
         ok2 = True
         for r4 in (1, 3):
             for q4 in (1, 3):
-                ok2 &= bool(ev_res(t2, {nn: r4, a1: q4})) == (r4 == 3 and q4 == 3)
+                try:
+                    ok2 &= bool(ev_res(t2, {nn: r4, a1: q4})) == (r4 == 3 and q4 == 3)
+                except (KeyError, ValueError):
+                    ok2 = False
     chk.ob("R15.3", "jacobi: (2/n)^e rule: s = +1 iff e even or n = +-1 mod 8 (8 residue cases)", ok1, loc=jq, key="C15|R15.3|two", detail="the supplementary-law table differs")
     chk.ob("R15.3", "jacobi: reciprocity sign flips iff n = a1 = 3 mod 4 (4 residue cases)", ok2, loc=jq, key="C15|R15.3|reciprocity", detail="the reciprocity sign table differs")
-    early = [norm_text(s).replace("\n", " ") for s in jf.node.body if isinstance(s, ast.If) and len(s.body) == 1 and isinstance(s.body[0], ast.Return)]
-    chk.ob("R15.3", "jacobi: a == 0 -> 0, a == 1 -> 1, a1 == 1 -> s", any(x.startswith("if %s == 0:" % an) and x.endswith("return 0") for x in early) and any(x.startswith("if %s == 1:" % an) and x.endswith("return 1") for x in early)
-           and any(x.startswith("if %s == 1:" % a1) and x.endswith("return s") for x in early), loc=jq, key="C15|R15.3|base", detail="base cases are %s" % early)
+    early = [s for s in jf.node.body if isinstance(s, ast.If) and len(s.body) == 1 and isinstance(s.body[0], ast.Return)]
+    okbase = any(pat.match("if %s == 0:\n    return 0" % an, x) is not None for x in early) and any(pat.match("if %s == 1:\n    return 1" % an, x) is not None for x in early) \
+        and bool(sname and a1) and any(pat.match("if L_a1 == 1:\n    return L_s", x, {"L_a1": a1, "L_s": sname}) is not None for x in early)
+    chk.ob("R15.3", "jacobi: a == 0 -> 0, a == 1 -> 1, a1 == 1 -> s", okbase, loc=jq, key="C15|R15.3|base", detail="base cases are %s" % [norm_text(x).replace("\n", " ") for x in early])
+    rets = [x for x in ast.walk(jf.node) if isinstance(x, ast.Return)]
+    okfin = bool(sname) and bool(rec) and any(pat.any_of(x, ["return L_s * jacobi(X_a, X_b)", "return jacobi(X_a, X_b) * L_s"], {"L_s": sname}) is not None for x in rets)
+    chk.ob("R15.3", "jacobi: the recursive result is multiplied by the accumulated sign", okfin, loc=jq, key="C15|R15.3|final", detail="the final return does not multiply the recursive symbol by the sign")
